@@ -15,6 +15,9 @@ func countN(tier string, quick, thorough int) int {
 	if tier == "thorough" {
 		return thorough
 	}
+	if searchMode {
+		return quick * 4
+	}
 	return quick
 }
 
